@@ -16,7 +16,7 @@ from vf.families import BENCH_MIN_N, BENCH_NAMES
 ID = "C19"
 LEVEL = "exploration"
 RULE = (
-    "Hypothesis draws (function, n in 1..12 [2.. for chained], x in [-5,5]^n on a 1e-4 grid plus an irrational offset; half of the cases re-use the same array object after moving it in place by a drawn step); "
+    "Hypothesis draws (function, n in 1..12 [2.. for chained], x in [-5,5]^n on a 1e-4 grid plus an irrational offset; half of the cases re-use the same array object after moving it in place by a drawn step; half also pass the point as a plain list or tuple); "
     "non-trivial = n>=2 and no coordinate within 1e-3 of an integer or half-integer (where the test-suite's integer points live); "
     "distinct = distinct (function, x)"
 )
@@ -48,7 +48,7 @@ def case(draw, name):
     ks = draw(st.lists(st.integers(-49999, 49999), min_size=n, max_size=n))
     off = draw(st.sampled_from([0.0, math.pi * 1e-5, math.e * 1e-5]))
     x = [k * 1e-4 + off for k in ks]
-    out = {"bench": name, "x": x}
+    out = {"bench": name, "x": x, "container": draw(st.sampled_from(["ndarray", "ndarray", "list", "tuple"]))}
     if draw(st.booleans()):
         out["step"] = [k * 1e-3 for k in draw(st.lists(st.integers(-300, 300), min_size=n, max_size=n))]
     return out
@@ -82,6 +82,17 @@ def check(spec, stats=None):
         stats.case(spec, nt, [f"fn={name}", f"n={'1' if n == 1 else '2-4' if n <= 4 else '5-12'}"])
         stats.maxi(f"max_err_over_tol[{name}]", err / tol)
     require(err <= tol, f"gradient-matches[{name}]", f"{name} n={n}: max|grad-D6f|={err:.3e} > tol={tol:.3e} at x={x.tolist()}")
+    # array_like input (the docstrings say so): a plain list and a tuple must give the same answers as the ndarray
+    if spec.get("container") in ("list", "tuple"):
+        xl = x.tolist() if spec["container"] == "list" else tuple(x.tolist())
+        gl = np.asarray(g(xl))
+        require(gl.shape == x.shape, f"gradient-shape[{name}]", f"{name}: gradient of a {spec['container']} of length {n} has shape {gl.shape}")
+        require(float(np.max(np.abs(gl - gx))) <= 1e-12 * (1.0 + float(np.max(np.abs(gx)))), f"gradient-matches[{name}]",
+                f"{name}: gradient for {spec['container']} input differs from the gradient for the same values as ndarray")
+        fl = f(xl)
+        require(np.ndim(fl) == 0 and abs(float(fl) - float(fx)) <= 1e-12 * (1.0 + abs(float(fx))), f"value-is-scalar[{name}]", f"{name}: f({spec['container']}) = {fl!r} vs {fx!r}")
+        if stats is not None:
+            stats.bump("cases-with-list-or-tuple-input")
     # The pair must be a pure function of the *values* handed in: the same array object, modified in
     # place by the caller between two calls (a very common calling pattern), must be answered at its
     # current contents, and neither call may modify it.
